@@ -29,7 +29,13 @@ GRID = 0.0625
 # configurations
 # ---------------------------------------------------------------------------------------------------------------------
 
-TOPOLOGIES = ("std", "two_src")
+TOPOLOGIES = ("std", "two_src", "chain")
+# chain: trough -> plunger -> {playfield | lock}, lock -> playfield.  The plunger ("launcher") feeds two targets; which way a
+# ball leaving it goes is decided by a diverter.  On a real machine that diverter is a coil MPF drives from the launcher's
+# `ejecting_ball` event (the `diverters:` section is wired to exactly that event), so the world takes the diverter position
+# from the target of the plunger's last `ejecting_ball` event - this is the only place where the world listens to MPF's
+# bookkeeping, and only to choose between the plunger's two physical exits; every other device has one fixed exit and the
+# first hop (trough -> plunger), where balls get lost in the multi-hop scenarios, does not depend on it.
 
 
 def build_config(p):
@@ -45,15 +51,19 @@ def build_config(p):
     lines += ["coils:"]
     for i, c in enumerate(["c_trough", "c_plunger", "c_lock"]):
         lines += ["  %s:" % c, "    number: %d" % (i + 1), "    default_pulse_ms: 20"]
-    lock_target = "playfield" if p["topo"] == "std" else "plunger"
+    lock_target = "plunger" if p["topo"] == "two_src" else "playfield"
+    chain = p["topo"] == "chain"
     common = ["    eject_timeouts: %dms" % p["eject_to"], "    ball_missing_timeouts: %dms" % p["missing_to"],
               "    idle_missing_ball_timeout: %dms" % p["idle_to"], "    confirm_eject_type: target"]
     lines += ["ball_devices:",
               "  trough:", "    ball_switches: %s" % ", ".join(sw[:n]), "    eject_coil: c_trough",
               "    tags: trough, home, drain", "    eject_targets: plunger",
               "    max_eject_attempts: %d" % p["tries_trough"]] + common
-    lines += ["  plunger:", "    ball_switches: s_plunger", "    eject_coil: c_plunger", "    eject_targets: playfield",
-              "    max_eject_attempts: %d" % p["tries_plunger"]] + common
+    common2 = ["    eject_timeouts: %dms, %dms" % (p["eject_to"], p["eject_to"]),
+               "    ball_missing_timeouts: %dms, %dms" % (p["missing_to"], p["missing_to"])] + common[2:]
+    lines += ["  plunger:", "    ball_switches: s_plunger", "    eject_coil: c_plunger",
+              "    eject_targets: %s" % ("playfield, lock" if chain else "playfield"),
+              "    max_eject_attempts: %d" % p["tries_plunger"]] + (common2 if chain else common)
     lines += ["  lock:", "    ball_switches: s_lock0, s_lock1", "    eject_coil: c_lock",
               "    eject_targets: %s" % lock_target, "    max_eject_attempts: %d" % p["tries_lock"]] + common
     start = sw[:p["balls"]]
@@ -69,8 +79,16 @@ def topology(p):
     return {
         "trough": {"switches": ["s_t%d" % i for i in range(n)], "coil": "c_trough", "exit": "plunger"},
         "plunger": {"switches": ["s_plunger"], "coil": "c_plunger", "exit": "pf"},
-        "lock": {"switches": ["s_lock0", "s_lock1"], "coil": "c_lock", "exit": "pf" if p["topo"] == "std" else "plunger"},
+        "lock": {"switches": ["s_lock0", "s_lock1"], "coil": "c_lock", "exit": "plunger" if p["topo"] == "two_src" else "pf"},
     }
+
+
+def edges(p):
+    """eject_targets edges (device -> node name)"""
+    e = [("trough", "plunger"), ("plunger", "playfield"), ("lock", "plunger" if p["topo"] == "two_src" else "playfield")]
+    if p["topo"] == "chain":
+        e.append(("plunger", "lock"))
+    return e
 
 
 # ---------------------------------------------------------------------------------------------------------------------
@@ -180,11 +198,12 @@ class World:
         self.outcomes = {d: list(v) for d, v in outcomes.items()}
         self.timing = timing
         self.no_pf_hit_until = 0.0
+        self.diverter = "pf"
         self.fired_full = []                               # property-level events
         self.overflow = []                                 # a ball reached a device without a free slot
         self.history = []
         self.last_change = 0.0
-        self.delivered = {"pf": 0}
+        self.delivered = {"pf": 0, "trough": 0, "plunger": 0, "lock": 0}
         self.nballs = 0
         for i in range(p["balls"]):
             self.slots["trough"][i] = self.nballs
@@ -194,6 +213,11 @@ class World:
             self.nballs += 1
 
     # -- helpers
+    def exit_of(self, d):
+        if d == "plunger" and self.p["topo"] == "chain":
+            return self.diverter            # set from the plunger's ejecting_ball event (see TOPOLOGIES)
+        return self.topo[d]["exit"]
+
     def now(self):
         return self.run.vm.now()
 
@@ -225,7 +249,7 @@ class World:
     # -- MPF -> world
     def pulse(self, d):
         self.history.append([round(self.now() / GRID), "pulse", d])
-        exit_to = self.topo[d]["exit"]
+        exit_to = self.exit_of(d)
         occ = [i for i, b in enumerate(self.slots[d]) if b is not None]
         if not occ or self.kick[d] is not None:
             return                         # nothing to kick / ball already leaving: a pulse is idempotent
@@ -254,9 +278,9 @@ class World:
         slot, ball, dst, outcome = self.kick[d]
         self.kick[d] = None
         self.slots[d][slot] = None
-        tr = {"ball": ball, "src": d, "dst": dst, "kind": outcome, "left_at": round(self.now() / GRID)}
+        tr = {"ball": ball, "src": d, "dst": dst, "kind": outcome, "left_at": round(self.now() / GRID), "exit": self.exit_of(d)}
         self.transit.append(tr)
-        if outcome == "fallback" and self.topo[d]["exit"] == "pf":
+        if outcome == "fallback" and self.exit_of(d) == "pf":
             # until the source's confirm window (eject_timeout) is over MPF takes any playfield switch hit (by another
             # ball) for the confirmation of this eject, although the ball comes back: ambiguous, not generated
             self.no_pf_hit_until = max(self.no_pf_hit_until, self.now() + self.p["eject_to"] / 1000.0 + 4 * GRID)
@@ -298,6 +322,8 @@ class World:
             self.note("bounced_to_pf", dst, ball, src)
             return
         self.slots[dst][free[0]] = ball
+        if src != "pf":
+            self.delivered[dst] += 1
         self.note("entered", dst, ball, src)
         self.switch(self.topo[dst]["switches"][free[0]], 1)
 
@@ -312,10 +338,10 @@ class World:
         if self.now() < self.no_pf_hit_until:
             return False
         for x in self.transit:
-            if x["kind"] == "fallback" and self.topo[x["src"]]["exit"] == "pf":
+            if x["kind"] == "fallback" and x.get("exit") == "pf":
                 return False
         for d, k in self.kick.items():
-            if k is not None and k[3] == "fallback" and self.topo[d]["exit"] == "pf":
+            if k is not None and k[3] == "fallback" and self.exit_of(d) == "pf":
                 return False
         return True
 
@@ -440,6 +466,8 @@ class Run:
                 a.append(bool(kwargs.get("retry")))
             if e == "ball_enter":
                 a.append(kwargs.get("unclaimed_balls"))
+            if e == "ejecting_ball" and d == "plunger" and t is not None:
+                self.world.diverter = "pf" if t.name == "playfield" else t.name
             self.log(*a)
         return h
 
@@ -549,10 +577,8 @@ def cfg_line(p, snap):
         toks.append("d,%d,%d,%d" % (snap[d]["cap"], tries[d], snap[d]["counted"]))
     toks.append("p")
     toks.append("|")
-    topo = topology(p)
-    for d in DEVS:
-        ex = topo[d]["exit"]
-        toks.append("%d>%d" % (IDX[d], IDX["playfield" if ex == "pf" else ex]))
+    for a, b in edges(p):
+        toks.append("%d>%d" % (IDX[a], IDX[b]))
     return " ".join(toks)
 
 
@@ -650,9 +676,18 @@ class CaseResult:
         self.rests = 0
         self.nontrivial = False
 
+    focus = "C04"
+
     def fail(self, sig, detail):
         if not any(f[0] == sig for f in self.failures):
             self.failures.append((sig, detail))
+
+    @property
+    def blocking(self):
+        if self.focus == "C04":
+            return self.failures
+        return [f for f in self.failures if is_progress_sig(f[0]) or f[0].startswith(("crash:", "fired-into", "misattributed:",
+                                                                                      "ball-reached"))]
 
     def count(self, k, n=1):
         self.hist[k] = self.hist.get(k, 0) + n
@@ -662,10 +697,23 @@ def _rest_len(p):
     return (p["eject_to"] + p["missing_to"] + p["idle_to"]) / 1000.0 + 2.0
 
 
-def run_case(case, model=None):
-    """returns CaseResult.  `model` = LeanProc of the ledger monitor or None (oracle only)."""
+PROGRESS_PREFIXES = ("progress:", "stuck:", "rest:servable", "rest:requested", "rest:request-dropped", "rest:never",
+                     "rest:device-not-idle", "rest:eject-queue")
+
+
+def is_progress_sig(sig):
+    """signatures owned by C05 (progress); everything else belongs to C04 (counts)"""
+    return sig.startswith(PROGRESS_PREFIXES)
+
+
+def run_case(case, model=None, focus="C04"):
+    """returns CaseResult.  `model` = LeanProc of the ledger monitor or None (oracle only).  A case stops at the first
+    failure that belongs to the property in `focus` (or that makes the rest of the history meaningless: crash, double
+    fire); with focus C05 a pure count failure (C04's business) is recorded but the history goes on, so that its
+    consequences for progress - a request never served - are seen by C05's own oracle."""
     p, timing = case["p"], case["timing"]
     res = CaseResult()
+    res.focus = focus
     run = Run(p, case.get("outcomes", {}), timing)
     run.start()
     try:
@@ -744,7 +792,7 @@ def _run_case(case, run, res, model):
             return False
 
     def at_rest_check(final):
-        if res.failures:
+        if res.blocking:
             return
         res.rests += 1
         s = run.snap()
@@ -782,7 +830,9 @@ def _run_case(case, run, res, model):
                 res.fail("rest:available-sum-differs-from-known", ctxd)
             for d in DEVS:
                 owed = _waits_for_unavailable_ball(s, d, p)     # a claim on a ball that is not there yet (restored path)
-                if (s[d]["avail"] < 0 and not owed) or s[d]["avail"] > s[d]["balls"]:
+                pending = any(s[x]["queue"] or s[x]["state"] != "idle" for x in DEVS)   # a planned chain claims its ball at
+                # the final target before the ball is there; otherwise nothing may be available that is not in the device
+                if (s[d]["avail"] < 0 and not owed) or (s[d]["avail"] > s[d]["balls"] and not pending):
                     res.fail("rest:available-out-of-range:" + d, ctxd)
             # progress: every requested ball delivered, or no ball can serve the request
             queued = sum(s[d]["reqs"] for d in DEVS)
@@ -791,13 +841,27 @@ def _run_case(case, run, res, model):
             for d in DEVS:
                 if s[d]["queue"] and not _waits_for_unavailable_ball(s, d, p):
                     res.fail("rest:eject-queue-not-empty:" + d, ctxd)
-            plans = sum(1 for o in run.obs if o[1] == "plan" and o[2][-1] == "playfield")
-            if world.delivered["pf"] < plans:      # every chain MPF committed to the playfield physically delivered a ball
-                res.fail("rest:requested-ball-not-delivered", dict(ctxd, planned_to_playfield=plans,
-                                                                   delivered=world.delivered["pf"]))
+            quiescent = all(s[d]["queue"] == 0 and s[d]["state"] == "idle" for d in DEVS)
+            if quiescent and not queued:
+                # nothing pending anywhere: no claim may be left over - available_balls is exactly the belief, which is
+                # exactly the physical content (no phantom availability, no forgotten debt)
+                for d in DEVS:
+                    if s[d]["avail"] != truth[d]:
+                        res.fail("rest:available-differs-from-physical-content:" + d, ctxd)
+                if s["playfield"]["avail"] != truth["playfield"]:
+                    res.fail("rest:available-differs-from-physical-content:playfield", ctxd)
+            plans_total = 0
+            for node in NODES:
+                plans = sum(1 for o in run.obs if o[1] == "plan" and o[2][-1] == node)
+                plans_total += plans
+                # a hop whose ball was declared lost is re-planned to the same node (restore branch): count it as accounted for
+                got = world.delivered["pf" if node == "playfield" else node] + \
+                    sum(1 for o in run.obs if o[1] == "lost_ejected" and o[3] == node)
+                if quiescent and not queued and got < plans:     # every chain MPF committed to this target physically delivered a ball
+                    res.fail("rest:requested-ball-not-delivered", dict(ctxd, target=node, planned=plans, delivered=got))
             nreq = sum(1 for o in run.obs if o[1] == "request")
-            if plans + queued < nreq:
-                res.fail("rest:request-dropped", dict(ctxd, requests=nreq, planned_to_playfield=plans, queued=queued))
+            if plans_total + queued < nreq:
+                res.fail("rest:request-dropped", dict(ctxd, requests=nreq, planned=plans_total, queued=queued))
         else:
             res.count("rest_with_broken_device")
             tot_truth = sum(truth.values())
@@ -815,7 +879,7 @@ def _run_case(case, run, res, model):
             n_obs, n_hist = len(run.obs), len(world.history)
             if not advance(quiet):
                 return False
-            if res.failures:
+            if res.blocking:
                 return False
             if len(run.obs) == n_obs and len(world.history) == n_hist and not world.q:
                 return True
@@ -838,7 +902,7 @@ def _run_case(case, run, res, model):
     expected_pf[0] = 0
     alive = True
     for op in case["ops"]:
-        if not alive or res.failures:
+        if not alive or res.blocking:
             break
         k = op[0]
         res.count("act_" + k)
@@ -865,10 +929,19 @@ def _run_case(case, run, res, model):
                     res.count("act_noop")
             elif k == "release_lock":
                 dev = m.ball_devices["lock"]
-                if dev.available_balls > 0 and dev.state != "eject_broken":
+                oh = dev.outgoing_balls_handler
+                pending = oh._eject_queue.qsize() + (1 if oh._current_target is not None else 0)
+                if dev.available_balls > 0 and dev.balls - pending > 0 and dev.state != "eject_broken":
                     run.log("request")
                     dev.eject(1, target=m.playfield)
                     expected_pf[0] += 1
+                else:
+                    res.count("act_noop")
+            elif k == "request_lock":
+                dev = m.ball_devices["lock"]
+                if p["topo"] == "chain" and dev.state != "eject_broken" and dev.available_balls < dev.capacity:
+                    run.log("request")
+                    dev.request_ball()          # multi-hop request to a non-playfield target: trough -> plunger -> lock
                 else:
                     res.count("act_noop")
             elif k == "escape":
@@ -899,7 +972,7 @@ def _run_case(case, run, res, model):
         except BaseException as e:
             crash(e, "op " + k)
             alive = False
-    if alive and not res.failures:
+    if alive and not res.blocking:
         if go_to_rest():
             at_rest_check(True)
     # -- C05 on the event stream: every failed eject is retried with the next attempt number, reported lost, or the
@@ -947,20 +1020,28 @@ def _blocked_by_broken(s, d, broken, p):
 
 
 def _upstream(p):
-    return {"trough": [], "plunger": ["trough"] + (["lock"] if p["topo"] == "two_src" else []), "lock": []}
+    return {"trough": [], "plunger": ["trough"] + (["lock"] if p["topo"] == "two_src" else []),
+            "lock": ["plunger", "trough"] if p["topo"] == "chain" else []}
 
 
 def _waits_for_unavailable_ball(s, d, p):
-    """the device holds a planned eject but neither it nor any device upstream has a ball: nothing can be served"""
+    """the device holds a planned eject but neither it nor any device upstream has a ball: nothing can be served; or
+    (chain topology) the launcher holds a ball for the lock and the lock is physically full and idle: no room to serve"""
+    if p["topo"] == "chain" and d == "plunger" and s[d]["state"] == "waiting_for_target_ready" and \
+            s["lock"]["counted"] >= s["lock"]["cap"] and s["lock"]["state"] == "idle" and not s["lock"]["queue"]:
+        return True
     return s[d]["state"] == "waiting_for_ball" and s[d]["counted"] == 0 and \
         all(s[x]["counted"] == 0 and s[x]["state"] in ("idle", "eject_broken") for x in _upstream(p)[d])
 
 
 def _servable(s, p):
     """some queued request could be served: the device holding it, or a device upstream of it, has an available ball"""
-    up = {"trough": [], "plunger": ["trough"] + (["lock"] if p["topo"] == "two_src" else []), "lock": []}
+    up = _upstream(p)
     for d in DEVS:
-        if s[d]["reqs"] and any(s[x]["avail"] > 0 and s[x]["state"] != "eject_broken" for x in [d] + up[d]):
+        # requests queued at the lock are for the lock itself (request_ball); a claim of a pending chain (available without
+        # a counted ball) serves nothing
+        cands = up[d] + ([d] if d != "lock" else [])
+        if s[d]["reqs"] and any(s[x]["avail"] > 0 and s[x]["counted"] > 0 and s[x]["state"] != "eject_broken" for x in cands):
             return True
     return False
 
